@@ -284,6 +284,39 @@ def boundary_cases(r, tier):
     return out
 
 
+# ----------------------------------------------------------------------------- C02 header numbers
+
+def header_number_streams():
+    """'*' and '$' headers whose number is legal only modulo 2^64 (k*2^64 + s, followed by what
+    would be well-formed for s, so that a decoder that wraps executes it), the edges of the
+    unsigned / signed 64-bit ranges, powers of ten with leading zeros, 30-40 digit numbers."""
+    W = 2 ** 64
+    out = []
+    ping = b"$4\r\nPING\r\n"
+    tail = encode_cmd([b"PING", b"after"])
+    bodies = {0: b"", 1: b"x", 2: b"ok", 4: b"PING", 16: b"0123456789abcdef"}
+    for k in (1, 2, 3, 10):
+        for sgn in (b"", b"+"):
+            for n, body in bodies.items():
+                num = sgn + str(k * W + n).encode()
+                # bulk header: *1 $<num> <n bytes>
+                out.append(b"*1\r\n$" + num + b"\r\n" + body + b"\r\n" + tail)
+                # bulk header inside a longer command
+                out.append(b"*2\r\n$4\r\nPING\r\n$" + num + b"\r\n" + body + b"\r\n" + tail)
+                # array header: *<num> followed by n bulk strings
+                out.append(b"*" + num + b"\r\n" + b"".join([ping] + [b"$1\r\na\r\n"] * (n - 1) if n else []) + tail)
+            out.append(b"*1\r\n$" + sgn + str(k * W - 1).encode() + b"\r\n" + tail)       # wraps to -1: the nil bulk
+            out.append(b"*" + sgn + str(k * W - 1).encode() + b"\r\n" + tail)
+    edge = [W - 1, W, W + 1, 2 ** 63 - 1, 2 ** 63, 2 ** 63 + 1, 2 ** 63 + 4, W + 2 ** 63, W + 512 * 1024 * 1024, W + 512 * 1024 * 1024 + 1]
+    edge += [10 ** e for e in range(19, 26)] + [10 ** e + 4 for e in (19, 20, 25)]
+    edge += [int("1" + "0" * 29), int("9" * 30), int("1" + "0" * 39) + 4, int("184467440737095516160000000004"), 7 * 2 ** 128 + 4, 2 ** 128 + 1]
+    for z in edge:
+        for num in (str(z).encode(), b"000" + str(z).encode(), b"-" + str(z).encode()):
+            out.append(b"*1\r\n$" + num + b"\r\nPING\r\n" + tail)
+            out.append(b"*" + num + b"\r\n" + ping + tail)
+    return out
+
+
 # ----------------------------------------------------------------------------- C03 programs
 
 class Ctx:
